@@ -1,7 +1,7 @@
 """C04 — PrivateKey::new / public / address / Address Display against Model/Account.v, with an independent Python
 secp256k1 + Keccak + EIP-55 as third opinion."""
 from coqrun import pb
-from gen import pyref
+from gen import prims, pyref
 from gen.util import SECP_N, lib_vs_model, rbytes, short
 
 NEEDS = dict(cli=True, harness=True, shim=False, release=False)
@@ -20,6 +20,7 @@ EIP55 = ["0x5aAeb6053F3E94C9b9A09f33669435E7Ef1BeAed", "0xfB6916095ca1df60bB79Ce
 
 def run(ctx):
     rng = ctx.rng
+    prims.check(ctx, ['keccak', 'pubkey'])
     thorough = ctx.tier == "thorough"
     ins = []
     for v in [1, 2, 3, N - 2, N - 1, 0, N, N + 1, (1 << 256) - 1, 1 << 255, N // 2]:
